@@ -696,9 +696,20 @@ def run_one(scenario, run_seed, schedule=None, max_steps=4000,
     V = Verdicts()
     st = new_state()
     pol = rs.Policy.biased(sim.rng, sim)
+    recorder = None
+    if with_model:
+        from harness import runtime_model as rm
+        recorder = rm.Recorder(sim, scenario)
+
+    def after(s, rec):
+        check_step(s, rec, V, st)
+        if recorder:
+            recorder.after(s, rec)
     quiescent = sim.run(pol, max_steps=max_steps, schedule=schedule,
-                        after=lambda s, rec: check_step(s, rec, V, st))
+                        after=after,
+                        before=recorder.before if recorder else None)
     stats = evaluate(sim, quiescent, st, V)
+    sim.recorder = recorder
     stats['style'] = getattr(pol, 'style', 'replay')
     stats['transitions'] = sim.t
     return sim, V, stats, st
@@ -727,7 +738,7 @@ def _run_chunk(args):
         rng = random.Random(rs)
         flav = None
         sc = gen_scenario(rng, flav)
-        sim, V, stats, st = run_one(sc, rs)
+        sim, V, stats, st = run_one(sc, rs, with_model=with_model)
         key = hashlib.sha1(repr((sc, sim.schedule())).encode()).hexdigest()[:16]
         verd = []
         seen = set()
@@ -744,7 +755,11 @@ def _run_chunk(args):
                              'schedule': sim.schedule()}
         if with_model:
             from harness import runtime_model as rm
-            res['model'] = rm.diff_run(sim, sc)
+            res['model'] = rm.diff(sim.recorder)
+            if res['model']['mismatch']:
+                res['model']['mismatch']['replay'] = {
+                    'scenario': sc, 'run_seed': rs,
+                    'schedule': sim.schedule()}
         sim.dispose()
         if i % 97 == 0:
             res['sample'] = {'topo': sc['topo'],
@@ -828,8 +843,10 @@ def run_batch(seed: int, tier: str, with_model: bool) -> dict:
             agg['samples'].append(r['sample'])
         if 'model' in r:
             agg['model']['transitions'] += r['model']['transitions']
-            if r['model']['mismatch'] and len(agg['model']['mismatch']) < 5:
-                agg['model']['mismatch'].append(r['model']['mismatch'])
+            if r['model']['mismatch']:
+                agg['model']['bad_runs'] = agg['model'].get('bad_runs', 0) + 1
+                if len(agg['model']['mismatch']) < 5:
+                    agg['model']['mismatch'].append(r['model']['mismatch'])
     cf.write_text(json.dumps(agg, default=str))
     return agg
 
